@@ -1,7 +1,7 @@
 SPECIFICATION LawSpec
 CONSTANTS
-  Parts <- PartsQuick
-  Texts <- ShapeTexts
+  Parts <- PartsLawsQuick
+  Texts <- NoTexts
   Lookups <- LookupsQuick
   WithBuild = TRUE
   Obs <- ObsNone
